@@ -31,6 +31,7 @@ var keyProps = map[string][]string{
 	"double-supersede":                 {"C03"},
 	"pool-unexpected":                  {"C03"},
 	"failed-":                          {"C05"},
+	"fault-ignored":                    {"C05"},
 	"running-differs-from-reopened":    {"C05"},
 	"copy-open-failed":                 {"C05"},
 	"irrev-":                           {"C17"},
@@ -69,7 +70,7 @@ var profiles = map[string]*Profile{
 		EndChecks: []string{"sync", "obs"}},
 	"C05": {Name: "failures", Steps: 30, Fee: []bool{false, true}, Windows: []int64{0, 2},
 		W: map[string]int{"xfer": 4, "xfer-bad": 5, "ktx": 4, "ktx-old": 3, "resubmit": 2, "badblock": 5, "mine": 3, "foreign": 3, "fork": 3,
-			"walk": 2, "cmpcopy": 4, "sync": 2},
+			"walk": 2, "cmpcopy": 4, "sync": 2, "fault": 5},
 		EndChecks: []string{"cmpcopy", "sync", "cmpcopy"}},
 	"C06": {Name: "crash", Steps: 26, Fee: []bool{false, true}, Windows: []int64{0},
 		W:         map[string]int{"xfer": 6, "ktx": 6, "mine": 5, "foreign": 5, "fork": 5, "walk": 3, "sync": 3, "xfer-bad": 1, "truncate": 2},
